@@ -334,7 +334,11 @@ fn idx(i: &str) -> Option<usize> {
 fn run_case(case: &Case) -> Verdict {
     let mut world = OpWorld::new_sdk();
     PLAN.with(|p| *p.borrow_mut() = Some(Plan { inject: case.inject.clone(), current_op: usize::MAX, nested: 0, fired_in_current: false }));
-    sim::with_core(|c| c.pre_hook = Some(nested_fault));
+    sim::with_core(|c| {
+        c.pre_hook = Some(nested_fault);
+        // the step budget is no liveness bound here: re-reading every live collection after every step is what costs
+        c.budget = u64::MAX / 2;
+    });
     let mut m = Model { slots: vec![], allowance: 0 };
     for (i, op) in case.ops.iter().enumerate() {
         let label = format!("op #{} {:?}", i, op);
@@ -815,6 +819,9 @@ fn run_case(case: &Case) -> Verdict {
 // ------------------------------------------------------------------ generation
 
 const LITS: [&str; 12] = ["a", "b", "x y", "", "h\u{e9}llo \u{6f22}", "0", "false", "true", "handle:zzzzzzzzzzzzzzzzzzzz", "-r", "c", "1"];
+/// values with the characters a re-serialisation would have to quote; given verbatim (no parsing is involved in
+/// an operation history), they must be stored and compared verbatim
+const ODD_LITS: [&str; 6] = ["x#y", "#", "say \"hi there\"", "a\nb", "ab", "tab\there"];
 const FAKES: [&str; 4] = ["handle:zzzzzzzzzzzzzzzzzzzz", "nohandle", "", "handle:"];
 const IDX: [&str; 11] = ["0", "1", "2", "5", "-1", "abc", "", "1.0", "16", "17", "39"];
 
@@ -822,6 +829,9 @@ fn gen_v(rng: &mut Rng, n_slots: usize) -> V {
     if rng.chance(1, 60) {
         // longer than 64 bytes
         return V::Lit(format!("long-{}-{}", "abcdefghij".repeat(7), rng.below(10)));
+    }
+    if rng.chance(1, 12) {
+        return V::Lit(rng.pick(&ODD_LITS).to_string());
     }
     if n_slots > 0 && rng.chance(1, 8) {
         V::HandleOf(rng.usize(n_slots))
@@ -934,6 +944,28 @@ fn gen_case(rng: &mut Rng) -> Case {
             slots += 1;
         }
         ops.push(op);
+    }
+    if rng.chance(1, 120) {
+        // a chain nested deeper than 16: each collection holds the handle of the previous one; then the outermost is
+        // released recursively and every link is probed
+        let base = slots;
+        let depth = 17 + rng.usize(10);
+        let mut chain: Vec<Op> = vec![];
+        for d in 0..depth {
+            let inner: Vec<V> = if d == 0 { vec![V::Lit("leaf".to_string())] } else { vec![V::Lit("x".to_string()), V::HandleOf(base + d - 1)] };
+            if rng.chance(1, 3) && d > 0 {
+                chain.push(Op::Map);
+                chain.push(Op::MPut(H::Id(base + d), V::Lit("next".to_string()), V::HandleOf(base + d - 1)));
+            } else {
+                chain.push(Op::Array(inner));
+            }
+        }
+        chain.push(Op::Release(H::Id(base + depth - 1), true));
+        for d in [0usize, 1, depth / 2, depth - 2] {
+            chain.push(Op::IsArray(H::Id(base + d)));
+            chain.push(Op::Release(H::Id(base + d), false));
+        }
+        ops.extend(chain);
     }
     let inject = if rng.chance(1, 3) {
         (0..1 + rng.usize(2)).map(|_| (rng.usize(ops.len()), rng.below(12) as u32)).collect()
